@@ -406,6 +406,64 @@ impl Heap {
 
 thread_local! {
     static HEAP: RefCell<Heap> = RefCell::new(Heap::new());
+    /// allocations made by this thread through the global allocator, outside the shadow heap's own bookkeeping
+    static GLOBAL_ALLOCS: std::cell::Cell<u64> = const { std::cell::Cell::new(0) };
+    static IN_HOOK: std::cell::Cell<bool> = const { std::cell::Cell::new(false) };
+}
+
+/// Counting global allocator (System underneath): lets a check see allocations the crate makes *outside* its
+/// own buffer management (e.g. a temporary String inside a conversion). The shadow heap obtains the crate's
+/// buffers from `System` directly, so those are not counted here; its bookkeeping is masked by IN_HOOK.
+pub struct CountingAlloc;
+
+unsafe impl GlobalAlloc for CountingAlloc {
+    unsafe fn alloc(&self, layout: Layout) -> *mut u8 {
+        let _ = IN_HOOK.try_with(|h| {
+            if !h.get() {
+                let _ = GLOBAL_ALLOCS.try_with(|c| c.set(c.get() + 1));
+            }
+        });
+        unsafe { System.alloc(layout) }
+    }
+    unsafe fn dealloc(&self, ptr: *mut u8, layout: Layout) {
+        unsafe { System.dealloc(ptr, layout) }
+    }
+    unsafe fn realloc(&self, ptr: *mut u8, layout: Layout, new_size: usize) -> *mut u8 {
+        let _ = IN_HOOK.try_with(|h| {
+            if !h.get() {
+                let _ = GLOBAL_ALLOCS.try_with(|c| c.set(c.get() + 1));
+            }
+        });
+        unsafe { System.realloc(ptr, layout, new_size) }
+    }
+    unsafe fn alloc_zeroed(&self, layout: Layout) -> *mut u8 {
+        let _ = IN_HOOK.try_with(|h| {
+            if !h.get() {
+                let _ = GLOBAL_ALLOCS.try_with(|c| c.set(c.get() + 1));
+            }
+        });
+        unsafe { System.alloc_zeroed(layout) }
+    }
+}
+
+#[global_allocator]
+static GLOBAL: CountingAlloc = CountingAlloc;
+
+/// number of global-allocator requests of this thread so far (excluding the shadow heap's bookkeeping)
+pub fn global_allocs() -> u64 {
+    GLOBAL_ALLOCS.with(|c| c.get())
+}
+
+struct HookGuard(bool);
+impl HookGuard {
+    fn enter() -> Self {
+        HookGuard(IN_HOOK.try_with(|h| h.replace(true)).unwrap_or(true))
+    }
+}
+impl Drop for HookGuard {
+    fn drop(&mut self) {
+        let _ = IN_HOOK.try_with(|h| h.set(self.0));
+    }
 }
 
 /// Runs `f` on this thread's heap. Must not be called re-entrantly (never call into lean_string
@@ -416,6 +474,7 @@ pub fn with<R>(f: impl FnOnce(&mut Heap) -> R) -> R {
 
 #[cfg(feature = "hooks")]
 unsafe fn hook_alloc(layout: Layout) -> *mut u8 {
+    let _g = HookGuard::enter();
     HEAP.with(|h| match h.try_borrow_mut() {
         Ok(mut h) => unsafe { h.do_alloc(layout) },
         Err(_) => std::ptr::null_mut(),
@@ -423,6 +482,7 @@ unsafe fn hook_alloc(layout: Layout) -> *mut u8 {
 }
 #[cfg(feature = "hooks")]
 unsafe fn hook_realloc(ptr: *mut u8, layout: Layout, new_size: usize) -> *mut u8 {
+    let _g = HookGuard::enter();
     HEAP.with(|h| match h.try_borrow_mut() {
         Ok(mut h) => unsafe { h.do_realloc(ptr, layout, new_size) },
         Err(_) => std::ptr::null_mut(),
@@ -430,6 +490,7 @@ unsafe fn hook_realloc(ptr: *mut u8, layout: Layout, new_size: usize) -> *mut u8
 }
 #[cfg(feature = "hooks")]
 unsafe fn hook_dealloc(ptr: *mut u8, layout: Layout) {
+    let _g = HookGuard::enter();
     let _ = HEAP.try_with(|h| {
         if let Ok(mut h) = h.try_borrow_mut() {
             unsafe { h.do_dealloc(ptr, layout) }
@@ -438,6 +499,7 @@ unsafe fn hook_dealloc(ptr: *mut u8, layout: Layout) {
 }
 #[cfg(feature = "hooks")]
 fn hook_note(kind: lean_string::verif_hooks::Note, ptr: *const u8, len: usize) {
+    let _g = HookGuard::enter();
     let _ = HEAP.try_with(|h| {
         if let Ok(mut h) = h.try_borrow_mut() {
             h.do_note(kind, ptr, len)
